@@ -68,6 +68,7 @@ func main() {
 			fmt.Fprintln(os.Stderr, "decode:", err)
 			os.Exit(2)
 		}
+		setCtxZoo(c.Cfg)
 		o := run(&c)
 		o.ID = c.ID
 		if err := enc.Encode(o); err != nil {
